@@ -62,7 +62,7 @@ int vnaproperty_import_yaml_from_file(vnaproperty_t **rootptr, FILE *fp,
     }
     yaml_parser_set_input_file(&parser, fp);
     if (!yaml_parser_load(&parser, &document)) {
-	if (parser.error == YAML_MEMORY_ERROR) {
+	if (parser.error == YAML_MEMORY_ERROR || parser.problem == NULL) {
 	    errno = ENOMEM;
 	    _vnaproperty_yaml_error(&vyml, VNAERR_SYSTEM,
 		    "yaml_parser_load: %s: %s",
